@@ -36,7 +36,7 @@ def empty (m : Melange) : Bool := m.cur == 0 && m.supp == 0
 /-- (*Melange).Supply — returns the receiver's new value and the error, exactly
 as the Go code leaves it (on the first error nothing has been written yet, on
 the second the clone is copied back). -/
-def supply (m a : Melange) : Melange × Option Err :=
+def supplyImpl (m a : Melange) : Melange × Option Err :=
   -- case Currency
   if maxU - a.cur < m.cur then (m, some .overflow) else
   let m1 : Melange := ⟨m.cur + a.cur, m.supp⟩
@@ -46,7 +46,7 @@ def supply (m a : Melange) : Melange × Option Err :=
   if s ≥ maxSupp then (⟨m1.cur + 1, s - maxSupp⟩, none) else (⟨m1.cur, s⟩, none)
 
 /-- spice.Transfer(amount, from, to) — returns (from', to', err). -/
-def transfer (amt frm to : Melange) : Melange × Melange × Option Err :=
+def transferImpl (amt frm to : Melange) : Melange × Melange × Option Err :=
   -- case Currency
   if amt.cur > frm.cur then (frm, to, some .insufficient) else
   if maxU - amt.cur < to.cur then (frm, to, some .overflow) else
@@ -63,6 +63,33 @@ def transfer (amt frm to : Melange) : Melange × Melange × Option Err :=
     let fr2 : Melange := ⟨fr1.cur, fr1.supp - amt.supp⟩
     let ts := to1.supp + amt.supp
     if ts ≥ maxSupp then (fr2, ⟨to1.cur + 1, ts - maxSupp⟩, none) else (fr2, ⟨to1.cur, ts⟩, none)
+
+/-! `supply` / `transfer` are exposed through kernel-opaque boxes with an unfolding theorem
+(`supply_eq`, `transfer_eq`). Reason: when the kernel is asked to put `supplyImpl m a` with *symbolic*
+words into weak head normal form it unfolds `literal - x` / `x + literal` on `UInt64` down to unary
+recursion over 2^64 ("deep recursion detected"). Every proof therefore rewrites with the
+unfolding theorem explicitly; compiled code and `supply_eq`-then-`decide` on literals are unaffected. -/
+
+structure SupplyBox where
+  f : Melange → Melange → Melange × Option Err
+  h : f = supplyImpl
+
+structure TransferBox where
+  f : Melange → Melange → Melange → Melange × Melange × Option Err
+  h : f = transferImpl
+
+opaque supplyBox : SupplyBox := ⟨supplyImpl, rfl⟩
+opaque transferBox : TransferBox := ⟨transferImpl, rfl⟩
+
+/-- (*Melange).Supply -/
+def supply (m a : Melange) : Melange × Option Err := supplyBox.f m a
+/-- spice.Transfer -/
+def transfer (amt frm to : Melange) : Melange × Melange × Option Err := transferBox.f amt frm to
+
+theorem supply_eq (m a : Melange) : supply m a = supplyImpl m a := by
+  unfold supply; rw [supplyBox.h]
+theorem transfer_eq (amt frm to : Melange) : transfer amt frm to = transferImpl amt frm to := by
+  unfold transfer; rw [transferBox.h]
 
 /-- (*Melange).Drain(amount, sink) = Transfer(amount, m, sink) -/
 def drain (m amt sink : Melange) : Melange × Melange × Option Err := transfer amt m sink
